@@ -113,6 +113,12 @@ def programs_for_schema(tier):
                             cls["VarAssign"](name="n", expr="static_cast<int>(__redu_len(xs))"), cls["VarAssign"](name="n", expr="__redu_list_get(xs, -1)"),
                             cls["ExprStmt"](expr="__redu_list_remove(xs, 2)"), cls["VarAssign"](name="xs", expr="__redu_list_from_range<int>(0, 5, 1, [&](int i) { return (i * 2); })")],
                   [], {"helpers": {"list", "len"}, "global_decls": gl}))
+    # every combination of helper snippets with a use of each registered helper (len() of a String next to lists)
+    gs = [cls["VarDecl"](name="txt", c_type="String", expr='String("abc")', global_scope=True), cls["VarDecl"](name="n", c_type="int", expr="0", global_scope=True)]
+    progs.append(("len(String)", [cls["VarAssign"](name="n", expr="static_cast<int>(__redu_len(txt))")], [], {"helpers": {"len"}, "global_decls": gs}))
+    progs.append(("lists+len(String)", [cls["VarAssign"](name="n", expr="static_cast<int>(__redu_len(txt))"), cls["VarAssign"](name="n", expr="static_cast<int>(__redu_len(xs))"), cls["ExprStmt"](expr="__redu_list_append(xs, n)")], [],
+                  {"helpers": {"list", "len"}, "global_decls": gs + [gl[0]]}))
+    progs.append(("lists-only", [cls["ExprStmt"](expr="__redu_list_append(xs, 4)")], [], {"helpers": {"list"}, "global_decls": [gl[0]]}))
     # button with a callback declared as function
     cb = cls["FunctionDef"](name="on_press", params=[], body=[S(ms=1)], return_type="void")
     progs.append(("Button+callback", [l2.decl_node("Button", on_click="on_press")], [cls["ButtonPoll"](name="dev")], {"functions": [cb]}))
@@ -247,6 +253,12 @@ void use_lcd_{j}() {{
         t = res.text
         ok_shape = len(re.findall(r"^void setup\(\) \{", t, re.M)) == 1 and len(re.findall(r"^void loop\(\) \{", t, re.M)) == 1 and t.count("{") == t.count("}")
         r.check(ok_shape, f"sketch-shape[{label.split('[')[0].split('{')[0]}]", (em, em.func("emit")), f"sketch for {label} does not have exactly one setup()/loop() with balanced braces", sample=None)
+        # the batch below shares one include block between sketches, so the include closure is decided per sketch here:
+        # every library class a sketch names is declared by a header that very sketch includes
+        body_txt = "\n".join(l_ for l_ in t.split("\n") if not l_.startswith("#include"))
+        need = {h for h, pat in (("Servo.h", r"\bServo\b"), ("LiquidCrystal_I2C.h", r"\bLiquidCrystal_I2C\b"), ("LiquidCrystal.h", r"\bLiquidCrystal\b(?!_)"), ("Wire.h", r"\bWire\.")) if re.search(pat, body_txt)}
+        have = set(re.findall(r"^#include <([\w.]+)>", t, re.M))
+        r.check(need <= have and "Arduino.h" in have, f"includes[{label.split('[')[0].split('{')[0]}]/library-header-for-every-class-used", (em, em.func("emit")), f"sketch for {label} uses classes from {sorted(need)} but includes only {sorted(have)}", sample=None)
         texts.append(t)
         labels.append(label)
     hole_types = ["int"] if tier == "quick" else ["int", "float", "String"]
@@ -391,6 +403,8 @@ void use_lcd_{j}() {{
 
     # ---- C06-PROMOTE -------------------------------------------------------------------------
     r = cx.rule("C06-PROMOTE", "every name first assigned inside a branch/handler is hoisted to the enclosing scope (so that uses after the statement are in scope): the promotion list is everything recorded, unfiltered", floor=3)
+    from . import c02
+    c02.rule_hoist_order(r, pm)
     pb = pm.func("_promote_branch_decls")
     rets = [n for n in walk_local(pb) if isinstance(n, ast.Return) and n.value is not None and not (isinstance(n.value, ast.List) and not n.value.elts)]
     r.check(bool(rets) and all(norm(x.value) == "order" for x in rets), "_promote_branch_decls/returns-all-recorded", (pm, pb), f"returns {[norm(x.value) for x in rets]}; expected the complete `order` list")
